@@ -64,6 +64,16 @@ theorem C12_source_file_type_map_call (X : Ext) (fnm : String → String → Boo
     | «raise» ex => rw [hr] at key; simp [key]
     | stuck => rw [hr] at key; simp [key]
 
+/-- `FileTypeMap.__init__` stores the list of entries (`None` / empty: the empty list) as `_mapping`, the attribute
+    `__call__` iterates over (what `ReadAsExt.hctor` / `hempty` assume about the constructor call). -/
+theorem C12_source_file_type_map_init (l : List Val) :
+    Gen.cliFileTypeMapInitSrc.run noExt [.list l] = .ok (.dict [(.str "_mapping", .list l)]) ∧
+    Gen.cliFileTypeMapInitSrc.run noExt [.none] = .ok (.dict [(.str "_mapping", .list [])]) := by
+  simp only [Gen.cliFileTypeMapInitSrc]
+  constructor
+  · cases l <;> pylite_eval [dictSet]
+  · pylite_eval [dictSet]
+
 /-- what the theorem about `_make_file_type_map` assumes about its callees: `_split_regex` (the READER{opts}:PATTERN
     grammar, an opaque helper of the translation: `helper#1`) returns the pair `split a` or raises `IOError`; the two
     constructors store their arguments (`FileTypeMap()` = empty mapping). -/
